@@ -43,7 +43,7 @@ def run(tier):
     return ck.finish()
 
 
-def api_machine(ck, tier, wd, exe):
+def api_machine(ck, tier, wd, exe, prop="C10"):
     """The partition API as a machine (PartApi.tla): TLC enumerates every history of up to L calls out of {read + relabel by a
     pattern + SetShapePartitions, UpdateSkinPartitions, RemoveEmptyPartitions, DeleteVertsForShape, save + load,
     GetShapePartitions}; the harness runs each on a skinned fan loaded from a file in FO3, SK and SSE; TLC folds the abstract
@@ -63,7 +63,7 @@ def api_machine(ck, tier, wd, exe):
     rc, out, err = vlib.run_harness(exe, ["c10-api", cases, tr], timeout=6000)
     if rc != 0:
         raise vlib.InfraError("c10-api failed: " + err[-1500:])
-    lines = c09.judge(ck, "C10", tr, "api-histories")
+    lines = c09.judge(ck, prop, tr, "api-histories")
     nrun = sum(1 for x in lines if x.startswith('{"e":"partapi"'))
     ncrash = sum(1 for x in lines if x.startswith('{"e":"crash"'))
     if nrun + ncrash * 40 * 3 < 3 * r.exported:
